@@ -1036,7 +1036,7 @@ func (ex *Exec) doIndexAddr(fr *Frame, st *State, x *ssa.IndexAddr) {
 	case *types.Slice:
 		ex.check(fr, st, "bounds", "", x.Pos(), and(le("0", idx), lt(idx, sLen(sv.T))))
 		h := ex.w.elemHeap(u.Elem())
-		st.vals[x] = SVal{T: "0", Loc: &Loc{Heap: h, Ref: sArr(sv.T), Idx: add(sOff(sv.T), idx), Elem: u.Elem()}}
+		st.vals[x] = SVal{T: "0", Loc: &Loc{Heap: h, Ref: sArr(sv.T), Idx: idxT(sOff(sv.T), idx), Elem: u.Elem()}}
 	case *types.Pointer:
 		a := u.Elem().Underlying().(*types.Array)
 		ex.check(fr, st, "bounds", "", x.Pos(), and(le("0", idx), lt(idx, fmt.Sprint(a.Len()))))
